@@ -533,6 +533,7 @@ package server
 //@   at call ProcessLockResultCommand assert C15.reply.before: implies(calls(ProcessLockData) >= 1, arg5 == ghost.valueBefore[ref(lockManager)])
 //@   inline
 //@   at call AddLock assert C10.wake.leader-only: self.status == STATE_LEADER
+//@   at call AddLock assert C02.wake.lockid-once: forallref(l, Lock, implies(l != waitLock && l.manager == lockManager && l.locked > 0 && l.command != nil, l.command.LockId != waitLock.command.LockId))
 //@   at call AddExpried assert C06.wake.unit: waitLock.command.ExpriedFlag&0x0400 == 0
 //@   at call AddLock assert C01.wake.key,C04.wake.key: waitLock.manager == lockManager && waitLock.locked == 0 && (admissible(lockManager, waitLock) || unlimitedClass(lockManager, waitLock))
 //@   at call ProcessLockData assert C11.wake.recover: arg3 == !waitLock.timeouted
